@@ -630,6 +630,23 @@ func checkNested(n Nested, c *vcommon.Ctx) *vcommon.Failure {
 		if loc.File == "test.lisp" {
 			return vcommon.Failf("nested/location-in-loading-source/"+n.Kind, "the error raised inside the nested source is located in the LOADING source at %d:%d; the failing form is at %d:%d of the nested text %q (debugger=%v)\n%s", loc.Line, loc.Col, want.Line, want.Col, inner, dbg, src)
 		}
+		// the trace keeps the calls that were active INSIDE the nested source,
+		// innermost first, above the loading call
+		if inner := map[string]string{"error": "lisp:error", "type": "lisp:car", "arity": "lisp:cons", "arg-of-call": "lisp:car", "nested-deeper": "lisp:car"}[n.Kind]; inner != "" {
+			fr := realFrames(out.Val)
+			if len(fr) == 0 || fr[0].name != inner {
+				return vcommon.Failf("nested/trace-lost-inner-frames/"+n.Kind, "the innermost frame of an error raised inside the nested source should be %s, the trace is:\n%s%s", inner, fmtFrames(fr), src)
+			}
+			sawLoader := false
+			for _, f := range fr[1:] {
+				if f.name == "lisp:load-string" {
+					sawLoader = true
+				}
+			}
+			if !sawLoader {
+				return vcommon.Failf("nested/trace-lost-loader/"+n.Kind, "the trace does not show the load-string call below the nested frames:\n%s%s", fmtFrames(fr), src)
+			}
+		}
 		if got := (Loc{loc.Pos, loc.Line, loc.Col}); got != want {
 			return vcommon.Failf("nested/location-wrong-form/"+n.Kind, "located at %s:%d:%d (offset %d); the failing form is at %d:%d (offset %d) of the nested text %q (debugger=%v)\n%s", loc.File, got.Line, got.Col, got.Pos, want.Line, want.Col, want.Pos, inner, dbg, src)
 		}
